@@ -116,7 +116,11 @@ func checkC20(r *core.Result) {
 		return
 	}
 	pd := prog.Pkg("cmd/protodump")
+	if root := prog.Pkg(""); root != nil {
+		r.Floor("varint overflow harnesses", checkVarintOverflow(r, prog, root), 24)
+	}
 	protodumpEntryRule(r, prog, pd)
+	tagPathMatchRule(r, prog, pd)
 	nT7 := protodumpPanicFreeCalls(r, prog, pd)
 	r.Floor("library calls with a non-negative-count precondition in protodump", nT7, 1)
 	pt := prog.Pkg("prototest")
@@ -958,4 +962,91 @@ func protodumpEntryRule(r *core.Result, prog *core.Program, pk *packages.Package
 		}
 	}
 	r.Floor("error tests in protodump's dump functions", n, 5)
+}
+
+// tagPathMatchRule (T11): (tagPath).Matches compares the configured path with a field's path element by
+// element; the type's documentation gives the element 0 the meaning "all fields at that level", and Set
+// accepts it. The only way out of the loop with `false` is a mismatch of a non-zero element, the lengths are
+// compared first, and the function ends with `return true`.
+func tagPathMatchRule(r *core.Result, prog *core.Program, pd *packages.Package) {
+	if pd == nil {
+		return
+	}
+	f := core.FindFunc(pd, "tagPath.Matches")
+	if f == nil || f.Decl == nil {
+		r.Fail("anchor", "tagPath.Matches", "", "function not found")
+		return
+	}
+	info := pd.TypesInfo
+	recv := info.Defs[f.Decl.Recv.List[0].Names[0]]
+	var loop *ast.RangeStmt
+	for _, st := range f.Decl.Body.List {
+		if rs, ok := st.(*ast.RangeStmt); ok {
+			if id, ok := ast.Unparen(rs.X).(*ast.Ident); ok && info.Uses[id] == recv {
+				loop = rs
+			}
+		}
+	}
+	if loop == nil || loop.Value == nil {
+		r.Ob("T11", "tagPath.Matches :: element 0 of a configured path matches every field number", prog.Pos(f.Pos()), false, "expected a loop over the receiver's elements")
+		return
+	}
+	elem := info.Defs[loop.Value.(*ast.Ident)]
+	isElem := func(e ast.Expr) bool {
+		id, ok := ast.Unparen(e).(*ast.Ident)
+		return ok && info.Uses[id] == elem
+	}
+	isZero := func(e ast.Expr) bool {
+		tv, ok := info.Types[e]
+		return ok && tv.Value != nil && tv.Value.String() == "0"
+	}
+	wild := true
+	why := ""
+	skipZero := false // a preceding `if t == 0 { continue }`
+	nRet := 0
+	for _, st := range loop.Body.List {
+		is, ok := st.(*ast.IfStmt)
+		if !ok {
+			continue
+		}
+		if b, ok := ast.Unparen(is.Cond).(*ast.BinaryExpr); ok && b.Op == token.EQL && (isElem(b.X) && isZero(b.Y) || isElem(b.Y) && isZero(b.X)) && len(is.Body.List) == 1 {
+			if br, ok := is.Body.List[0].(*ast.BranchStmt); ok && br.Tok == token.CONTINUE {
+				skipZero = true
+				continue
+			}
+		}
+		returnsFalse := false
+		ast.Inspect(is.Body, func(n ast.Node) bool {
+			if ret, ok := n.(*ast.ReturnStmt); ok && len(ret.Results) == 1 && types.ExprString(ret.Results[0]) == "false" {
+				returnsFalse = true
+			}
+			return true
+		})
+		if !returnsFalse {
+			continue
+		}
+		nRet++
+		guarded := skipZero
+		var flat func(e ast.Expr)
+		flat = func(e ast.Expr) {
+			e = ast.Unparen(e)
+			if b, ok := e.(*ast.BinaryExpr); ok {
+				if b.Op == token.LAND {
+					flat(b.X)
+					flat(b.Y)
+					return
+				}
+				if b.Op == token.NEQ && (isElem(b.X) && isZero(b.Y) || isElem(b.Y) && isZero(b.X)) {
+					guarded = true
+				}
+			}
+		}
+		flat(is.Cond)
+		if !guarded {
+			wild = false
+			why = "`if " + types.ExprString(is.Cond) + " { return false }` also rejects the element 0"
+		}
+	}
+	r.Ob("T11", "tagPath.Matches :: element 0 of a configured path matches every field number", prog.Pos(loop.Pos()), wild && nRet > 0,
+		"the documentation of tagPath gives 0 the meaning `all fields at that level` and Set accepts it, but "+why+": `-expand 0` never matches a field")
 }
